@@ -132,7 +132,7 @@ def one_short_write(res, W, rng, plen, plan, gen):
 # (b) concurrent senders / (c) receivers
 
 
-def sender_scenario(W, nthreads, nframes, piece, line_points, with_recv=False, slow=None, foreign=False, fragmenting=False, aged=0):
+def sender_scenario(W, nthreads, nframes, piece, line_points, with_recv=False, slow=None, foreign=False, fragmenting=False, aged=0, prefail=False):
     """returns a function(strategy) -> observation dict.  slow=(send_delay, socket_timeout): every transport write
     takes virtual time and the socket has a timeout shorter than a whole frame takes."""
 
@@ -157,7 +157,23 @@ def sender_scenario(W, nthreads, nframes, piece, line_points, with_recv=False, s
         got = []
         timed_out = []
 
+        go = [not prefail]
+        ready = []
+
         def sender(t):
+            if prefail:
+                # before the race: a send of this very thread that the transport refuses before taking a byte (timeout with a full
+                # buffer, or a reset that is not one): nothing was written, the stream is intact, the connection goes on
+                import socket as _socket
+                if t % 2 == 0:
+                    conn.send_error = _socket.timeout("timed out")
+                    try:
+                        w.send_binary(b"never-written-%d" % t)
+                    except BaseException as e:  # noqa
+                        if isinstance(e, sched.SimAbort):
+                            raise
+                ready.append(t)
+                S.block(lambda: go[0], None, why="start barrier")
             for k in range(nframes):
                 try:
                     if fragmenting and t == 0:
@@ -189,13 +205,22 @@ def sender_scenario(W, nthreads, nframes, piece, line_points, with_recv=False, s
                     errors.append(("r", 0, e))
                     return
 
-        actors = [S.spawn(sender, t, name=f"S{t}") for t in range(nthreads)]
+        actors = []
+        for t in range(nthreads):
+            actors.append(S.spawn(sender, t, name=f"S{t}"))
+            if prefail:
+                # one after the other: each thread's refused send is over before the next thread starts
+                S.block(lambda t=t: t in ready, None, why="sender at the barrier")
         if foreign:
             # sender threads started behind the threading module's back: threading.active_count() does not see them
             for a in actors:
                 a.foreign = True
         if with_recv:
             actors.append(S.spawn(receiver, name="R0"))
+        if prefail:
+            S.block(lambda: len(ready) == nthreads, None, why="senders at the barrier")
+            conn.send_error = None
+            go[0] = True
         S.arm(line_points=line_points)
         S.block(lambda: all(a.state == sched.DONE for a in actors), None, why="join")
         S.disarm()
@@ -298,10 +323,14 @@ def receiver_scenario(W, nthreads, stream_builder, line_points, seg_rng, api="re
 
         def receiver(t):
             lst = got.setdefault(t, [])
+            it = iter(w) if api == "iter-and-recv" and t == 0 else None
             while True:
                 try:
-                    if api == "recv":
+                    if api == "recv" or (api == "iter-and-recv" and t == 1):
                         lst.append(w.recv())
+                    elif api == "iter-and-recv":
+                        # the object is its own iterator: `for message in ws` in one thread (t == 0), next(ws) in the others
+                        lst.append(next(it) if it is not None else next(w))
                     else:
                         fr = w.recv_frame()
                         if fr.opcode == R.TEXT:
@@ -587,6 +616,14 @@ def run(res, tier, seed, shard, nshards):
     jobs.append(("RF", 3, "random-line", 100 if quick else 2500))
     jobs.append(("RF", 2, "dfs", 600 if quick else 20000))
     jobs.append(("R", 3, "sweep2-line", 300 if quick else 20000))
+    # one consumer iterates over the connection (`for message in ws`), the others call recv() / next()
+    jobs.append(("RI", 2, "sweep-line", 300 if quick else 100000))
+    jobs.append(("RI", 3, "random-line", 100 if quick else 2500))
+    jobs.append(("RI", 2, "random", 150 if quick else 5000))
+    # every sending thread has had a send of its own fail (nothing written) before the race starts
+    jobs.append(("SPF", 2, 2, 5, "random", 200 if quick else 5000))
+    jobs.append(("SPF", 3, 2, 3, "random-line", 100 if quick else 2500))
+    jobs.append(("SPF", 2, 1, 4, "dfs", 400 if quick else 20000))
     # a thread sending pongs of its own while the reader answers pings
     jobs.append(("PG", "sweep-line", 100000))
     jobs.append(("PG", "sweep2-line", 300 if quick else 20000))
@@ -618,6 +655,20 @@ def run(res, tier, seed, shard, nshards):
             tag = ("senders-aged-connection", nt, nf, aged, mode)
             explore(res, lambda: sender_scenario(W, nt, nf, piece, True, False, aged=aged),
                     lambda obs, S: _js(res, obs, S, nt, nf, tag, False), tag, mode.replace("-line", ""), budget, seed * 1000 + ji, "sender_schedules")
+        elif job[0] == "SPF":
+            _, nt, nf, piece, mode, budget = job
+            tag = ("senders-after-a-failed-send", nt, nf, piece, mode)
+            explore(res, lambda: sender_scenario(W, nt, nf, piece, mode.endswith("-line"), False, prefail=True),
+                    lambda obs, S: _js(res, obs, S, nt, nf, tag, False), tag, mode.replace("-line", ""), budget, seed * 1000 + ji, "sender_schedules")
+        elif job[0] == "RI":
+            _, nt, mode, budget = job
+            line = mode.endswith("-line")
+            m = mode.replace("-line", "")
+            tag = ("receivers-one-iterating", nt, mode)
+            srng = random.Random(seed * 7919 + ji)
+            fixed = build_recv_stream(random.Random(seed * 31 + ji))
+            explore(res, lambda: receiver_scenario(W, nt, (lambda: fixed) if m != "random" else (lambda: build_recv_stream(srng)), line, random.Random(ji), api="iter-and-recv"),
+                    lambda obs, S: _jr(res, obs, S, tag), tag, m, budget, seed * 1000 + ji, "receiver_schedules")
         elif job[0] == "SF":
             _, nt, nf, piece, mode, budget = job
             tag = ("senders-foreign-threads", nt, nf, piece, mode)
